@@ -11,6 +11,7 @@ LIB-SSE CODE
 @description: 
 """
 import json
+import os
 import pathlib
 import pickle
 import shutil
@@ -19,6 +20,14 @@ _PROGRAM_DIR_PATH = pathlib.Path.home().joinpath(".sse/client/")
 _PROGRAM_PATH = pathlib.Path(_PROGRAM_DIR_PATH)
 if not _PROGRAM_PATH.exists():
     _PROGRAM_PATH.mkdir(exist_ok=True, parents=True)
+
+
+def _write_atomically(path, data: bytes):
+    """Write to a temporary file and rename it into place, so that a crash never leaves a partial file."""
+    tmp_path = str(path) + ".tmp"
+    with open(tmp_path, "wb") as f:
+        f.write(data)
+    os.replace(tmp_path, str(path))
 
 
 def check_sid_local_file_valid(sid: str):
@@ -40,8 +49,7 @@ def read_service_config(sid: str) -> dict:
 
 
 def write_service_config(sid: str, config: dict):
-    with open(_PROGRAM_PATH.joinpath(sid).joinpath("config.json"), "w") as f:
-        json.dump(config, f)
+    _write_atomically(_PROGRAM_PATH.joinpath(sid).joinpath("config.json"), json.dumps(config).encode("utf8"))
 
 
 def read_service_meta(sid: str) -> dict:
@@ -49,8 +57,7 @@ def read_service_meta(sid: str) -> dict:
 
 
 def write_service_meta(sid: str, meta: dict):
-    with open(_PROGRAM_PATH.joinpath(sid).joinpath("service_meta"), "wb") as f:
-        pickle.dump(meta, f)
+    _write_atomically(_PROGRAM_PATH.joinpath(sid).joinpath("service_meta"), pickle.dumps(meta))
 
 
 def read_encrypted_database(sid: str) -> bytes:
@@ -59,8 +66,7 @@ def read_encrypted_database(sid: str) -> bytes:
 
 
 def write_encrypted_database(sid: str, edb_bytes: bytes):
-    with open(_PROGRAM_PATH.joinpath(sid).joinpath("edb"), "wb") as f:
-        f.write(edb_bytes)
+    _write_atomically(_PROGRAM_PATH.joinpath(sid).joinpath("edb"), edb_bytes)
 
 
 def delete_encrypted_database(sid: str):
@@ -69,8 +75,7 @@ def delete_encrypted_database(sid: str):
 
 
 def write_key(sid: str, key_bytes: bytes):
-    with open(_PROGRAM_PATH.joinpath(sid).joinpath("key"), "wb") as f:
-        f.write(key_bytes)
+    _write_atomically(_PROGRAM_PATH.joinpath(sid).joinpath("key"), key_bytes)
 
 
 def read_key(sid: str) -> bytes:
